@@ -15,7 +15,7 @@ META = {
         "engine::search::transposition::SearchTranspositionTableData::should_overwrite_with",
     ],
     "stubs": [],
-    "bounds": ["table length n in {1,2,3} (one harness instance each; the code is length-generic: the only length-dependent expression is key % len)",
+    "bounds": ["table length n in {1,2,3} (quick) / {1..5} (thorough) (one harness instance each; the code is length-generic: the only length-dependent expression is key % len)",
                "one operation from an ARBITRARY table under the invariant {len = n; filled slot i has key % n == i; occupied = number of filled "
                "slots}, arbitrary entries, keys, generation - inductive step, so histories of any length are covered if the invariant is right",
                "resize executed for the same size (no-op) and for 0 MB; other sizes allocate mb*65536 entries and are trusted to Vec::resize"],
@@ -44,6 +44,12 @@ def jobs(tier, seed):
         js.append(Job(f"c19_get_n{n}", f"get from arbitrary {n}-slot table: full-key equality, current content", params={"n": n}, timeout=900, min_covers=1))
         js.append(Job(f"c19_insert_n{n}", f"insert into arbitrary {n}-slot table: replacement policy, other slots, counters, invariant", params={"n": n}, timeout=1200))
         js.append(Job(f"c19_misc_n{n}", f"occupancy/new_generation/resize(same)/reset on arbitrary {n}-slot table", params={"n": n}, timeout=900))
+    if tier == "thorough":
+        for n in (4, 5):
+            for fn, what in (("step_get", "get"), ("step_insert", "insert"), ("step_misc", "misc")):
+                name = f"c19_{what}_n{n}"
+                src = f"#[kani::proof]\n#[kani::unwind(7)]\npub fn {name}() {{ c19::{fn}({n}); }}\n"
+                js.append(Job(name, f"{what} on an arbitrary {n}-slot table", gen=src, params={"n": n}, timeout=3600, mem_gb=16))
     js.append(Job("c19_resize_smallest", "resize(0 MB) from an arbitrary table, then probe+insert+probe", timeout=900))
     js.append(Job("c19_new_smallest", "TranspositionTable::new(0 MB), then probe+insert+probe", timeout=900))
     js.append(Job("c19_overwrite_policy", "should_overwrite_with vs the statement, all entry pairs", timeout=300, min_covers=2))
